@@ -41,9 +41,12 @@ def run(drv, case):
     clauses, query = PC.program(m, cs)
     desc = '%s  ?- %s' % (' '.join(P.ctext(c) for c in cs['clauses']), P.ttext(cs['query']))
     try:
-        P.ref_search(m, clauses, query, 8)      # only to drop programs outside the claim (panicking arithmetic, ...)
+        ref = P.ref_search(m, clauses, query, 8)      # only to drop programs outside the claim (panicking arithmetic, ...)
     except S.Outside:
         return {'tags': ['outside-claim'], 'nontrivial': False}
+    if not ref[2]:
+        # more than 8 answers: the reference has not seen the whole search, so it cannot vouch that the rest stays inside the claim
+        return {'tags': ['not-exhausted-within-bound'], 'nontrivial': False}
     kb = P.build_kb(drv, clauses)
     tags = []
     try:
